@@ -454,10 +454,15 @@ class Sandbox:
         out = {"comp": [], "home": []}
         for w, d in (("comp", self.dir_of(t)), ("home", self.cache)):
             if os.path.isdir(d):
-                for n in sorted(os.listdir(d)):
+                names = sorted(os.listdir(d))
+                if w == "home":
+                    # wherever below ~/.osaca/cache the loader keeps its files (names relative to the cache directory)
+                    names = sorted(os.path.relpath(os.path.join(r, f), d) for r, _, fs in os.walk(d) for f in fs)
+                for n in names:
                     p = os.path.join(d, n)
-                    if os.path.isfile(p) and t.stem in n and not n.endswith(".yml") and ".tmp-edit" not in n \
-                            and not n.startswith(".child-"):
+                    b = os.path.basename(n)
+                    if os.path.isfile(p) and t.stem in b and not b.endswith(".yml") and ".tmp-edit" not in b \
+                            and not b.startswith(".child-"):
                         out[w].append(n)
         return out
 
@@ -703,18 +708,19 @@ class PathRunner:
             self._log("toggle")
         elif a == "foreign":
             os.makedirs(sb.cache, exist_ok=True)
+            os.makedirs(os.path.dirname(os.path.join(sb.cache, pr.names[x]["home"])), exist_ok=True)
             with open(os.path.join(sb.cache, pr.names[x]["home"]), "wb") as f:
                 f.write(pr.pick[x])
             self._log("foreign", 0, x)
         elif a == "oldversion":
             w = "comp" if x == 1 else "home"
-            os.makedirs(sb.where_dir(t, w), exist_ok=True)
+            os.makedirs(os.path.dirname(os.path.join(sb.where_dir(t, w), pr.names[self.cur][w])), exist_ok=True)
             with open(os.path.join(sb.where_dir(t, w), pr.names[self.cur][w]), "wb") as f:
                 f.write(pr.old[self.cur])
             self._log("oldversion", 0, x)
         elif a == "legacy":
             w = "comp" if x == 1 else "home"
-            os.makedirs(sb.where_dir(t, w), exist_ok=True)
+            os.makedirs(os.path.dirname(os.path.join(sb.where_dir(t, w), pr.names[self.cur][w])), exist_ok=True)
             data = pr.pick[self.cur]
             with open(os.path.join(sb.where_dir(t, w), pr.names[self.cur][w]), "wb") as f:
                 f.write(data[:cut_offsets(len(data))[p]])
